@@ -66,6 +66,7 @@ struct World {
   std::unique_ptr<const support::Support<T>> sup;
   std::unique_ptr<S2> owned[VF_MAXT];             // thread-owned copies sharing the grid: destroyed inside the concurrent phase
   std::unique_ptr<support::Support<T>> owned_sup[VF_MAXT];
+  std::unique_ptr<const S2> on_copy[VF_MAXT];     // per thread: a spline on its own grid object holding the same points
 
   static S2 make(const support::Grid<T> &g, size_t s, size_t e, int variant) {
     std::vector<std::array<T, 3>> c;
@@ -85,10 +86,12 @@ struct World {
     for (int t = 1; t < VF_MAXT; t++) {
       owned[t].reset(new S2(*a));
       owned_sup[t].reset(new support::Support<T>(*sup));
+      support::Grid<T> gcopy(pts);  // distinct storage, logically equal grid
+      on_copy[t].reset(new S2(make(gcopy, 1, 6, 2)));
     }
   }
   void teardown() {
-    for (int t = 1; t < VF_MAXT; t++) { owned[t].reset(); owned_sup[t].reset(); }
+    for (int t = 1; t < VF_MAXT; t++) { owned[t].reset(); owned_sup[t].reset(); on_copy[t].reset(); }
     sup.reset(); lf.reset(); bf.reset(); opexpr.reset(); gen.reset(); b.reset(); a.reset(); grid.reset();
   }
   uint64_t op(int o, int tid) {
@@ -145,6 +148,12 @@ struct World {
         owned_sup[tid].reset();
         break;
       }
+      case 9: {  // combine shared const objects with a spline living on an equal grid held in a distinct object
+        d.spline(*a * *on_copy[tid]);
+        d.val(integration::ScalarProduct{}(*a, *on_copy[tid]));
+        d.u(a->getSupport() == on_copy[tid]->getSupport());
+        break;
+      }
       case 8: {  // support algebra on shared const supports
         auto u1 = sup->calcUnion(a->getSupport());
         auto i1 = sup->calcIntersection(b->getSupport());
@@ -159,9 +168,9 @@ struct World {
 
 static World<double> *w0;
 static World<Dbl> *w1;
-static const char *OPN[] = {"evaluate", "copy+destroy", "combine", "transform", "integrate", "generate", "isZero", "destroy-owned", "support-algebra"};
+static const char *OPN[] = {"evaluate", "copy+destroy", "combine", "transform", "integrate", "generate", "isZero", "destroy-owned", "support-algebra", "combine-with-equal-grid-copy"};
 extern "C" {
-int c18_nops() { return 9; }
+int c18_nops() { return 10; }
 const char *c18_opname(int op) { return OPN[op]; }
 void c18_setup(int variant) {
   if (variant == 0) { w0 = new World<double>(); w0->setup(); }
